@@ -42,7 +42,7 @@ COMPONENTS = {
 }
 STRUCT = ['seg_delete', 'seg_dup', 'seg_swap', 'seg_move', 'retag', 'retag_env', 'trunc_seg', 'trunc_char', 'extra_ele', 'extra_comp',
           'empty_seg', 'blank_seg', 'double_term', 'long_seg', 'byte_flip', 'delim_in_data', 'isa_damage', 'isa_version',
-          'drop_all_ele', 'env_short', 'env_short', 'odd_value', 'odd_value', 'char_delete', 'isa_field', 'isa_field', 'trailing_isa', 'gs_unknown_map', 'lowercase_id', 'inner_isa_short', 'bht_tspc', 'leading_blank']
+          'drop_all_ele', 'env_short', 'env_short', 'odd_value', 'odd_value', 'char_delete', 'isa_field', 'isa_field', 'trailing_isa', 'gs_unknown_map', 'lowercase_id', 'inner_isa_short', 'bht_tspc', 'leading_blank', 'non_ascii', 'alnum_delim', 'gs_broken_map']
 ENTRY = ['validate', 'validate', 'validate', 'reader', 'context', 'context_loop']
 
 
@@ -193,6 +193,30 @@ def text_mutate(rng, text, kind):
         k = rng.randint(0, n - 1)
         c = chr((ord(text[k]) ^ (1 << rng.randint(0, 6))) & 0x7f)
         return text[:k] + c + text[k + 1:], c != text[k]
+    if kind == 'non_ascii':
+        # a character outside ASCII in the data (a path source is opened as ASCII text)
+        k = rng.randint(106, n - 1)
+        if text[k] in (text[3], text[104], text[105], '\r', '\n'):
+            return text, False
+        return text[:k] + rng.choice(['\xc9', '\xe9', '\xa0', '\xff']) + text[k + 1:], True
+    if kind == 'alnum_delim':
+        # a letter or digit as element separator or segment terminator (one of I, S, A makes the header unreadable as "ISA")
+        old, new = rng.choice([(text[3], rng.choice('SAI7Z')), (text[105], rng.choice('SAZ'))])
+        if old in '\r\n' or new in text:
+            if new not in 'ISA':
+                return text, False
+        return text.replace(old, new), True
+    if kind == 'gs_broken_map':
+        # a transaction type whose registered map cannot be loaded (841: undefined data elements)
+        j = text.find(text[105] + 'GS' + text[3])
+        if j < 0 or text[84:89] != '00401':
+            return text, False
+        e = text.find(text[105], j + 1)
+        els = text[j + 1:e].split(text[3])
+        if len(els) < 9:
+            return text, False
+        els[1], els[8] = 'SP', '004010XXXC'
+        return text[:j + 1] + text[3].join(els) + text[e:], True
     if kind == 'char_delete':
         k = rng.randint(106, n - 1)
         if rng.random() < 0.5:
@@ -263,7 +287,8 @@ def generate(rng, tier, run, seed=0):
                     pass
                 continue
             k = rng.choice(STRUCT)
-            if k in ('trunc_char', 'trunc_seg', 'byte_flip', 'delim_in_data', 'isa_damage', 'isa_version', 'char_delete'):
+            if k in ('trunc_char', 'trunc_seg', 'byte_flip', 'delim_in_data', 'isa_damage', 'isa_version', 'char_delete', 'non_ascii',
+                     'alnum_delim', 'gs_broken_map'):
                 text_kinds.append(k)
             elif mutate(rng, segs, k):
                 fired.append(k)
